@@ -71,6 +71,7 @@ func linesPublishedBlanked(c *Ctx, rule string, rnl *FuncInfo) {
 
 func runC10(c *Ctx) {
 	c10Prog = c.P
+	defer c10ReadConsumes(c, "C10-R1")
 	p := c.P
 	c.Rule("C10-R1", "comments parsed and excluded text blanked before a line is published; writers of the line buffer", 6)
 	c.Rule("C10-R2", "nothing is collected from lines excluded by an earlier comment; such lines are blanked completely", 8)
@@ -683,3 +684,58 @@ func c10IsBlanker(fi *FuncInfo) bool {
 }
 
 var c10Prog *Prog
+
+// c10ReadConsumes: ContentReader.Read hands every byte of the line buffer to
+// the YAML decoder exactly once: the only stores to r.buf in Read are
+// `r.buf = r.buf[n:]` with n the result of `copy(…, r.buf)`. Dropping the rest
+// of the buffer (`r.buf = nil`) loses the tail of any line that does not fit the
+// decoder's read size, newline included: the following line is glued on, and
+// everything pint says about the file is said about another text. Reported
+// under R (the content reader is shared by C02, C06, C10, C19; C04/C12: the
+// query analysed must be the query in the file).
+func c10ReadConsumes(c *Ctx, R string) {
+	fi := c.MustFunc(R, "internal/parser.ContentReader.Read")
+	if fi == nil {
+		return
+	}
+	info := fi.Pkg.TypesInfo
+	const CR = "internal/parser.ContentReader"
+	copied := map[types.Object]bool{}
+	ast.Inspect(fi.Decl.Body, func(n ast.Node) bool {
+		as, ok := n.(*ast.AssignStmt)
+		if !ok || len(as.Lhs) != 1 || len(as.Rhs) != 1 {
+			return true
+		}
+		if call, ok := ast.Unparen(as.Rhs[0]).(*ast.CallExpr); ok && exprStr(call.Fun) == "copy" && len(call.Args) == 2 && fieldSel(info, call.Args[1], CR, "buf") {
+			if o := objOf(info, as.Lhs[0]); o != nil {
+				copied[o] = true
+			}
+		}
+		return true
+	})
+	n, bad := 0, ""
+	ast.Inspect(fi.Decl.Body, func(nd ast.Node) bool {
+		as, ok := nd.(*ast.AssignStmt)
+		if !ok {
+			return true
+		}
+		for i, l := range as.Lhs {
+			if !fieldSel(info, l, CR, "buf") {
+				continue
+			}
+			n++
+			okStore := false
+			if i < len(as.Rhs) && len(as.Lhs) == len(as.Rhs) {
+				if se, isSl := ast.Unparen(as.Rhs[i]).(*ast.SliceExpr); isSl && fieldSel(info, se.X, CR, "buf") && se.High == nil && se.Low != nil && copied[objOf(info, se.Low)] {
+					okStore = true
+				}
+			}
+			if !okStore {
+				bad = c.P.Pos(as.Pos())
+			}
+		}
+		return true
+	})
+	c.Check(n >= 1 && bad == "", R, "ContentReader.Read:consumes exactly what it copied", fi.Decl.Pos(), itoa(n)+" store(s), all `r.buf = r.buf[n:]` after n := copy(…, r.buf)",
+		"Read changes the line buffer at "+bad+" by something other than dropping the bytes it has just copied out: bytes of the file never reach the YAML decoder (or reach it twice), so rules, positions and queries are those of a different text")
+}
